@@ -42,6 +42,9 @@ func c06Alphabet() []c06Msg {
 		{name: "tools/call(modern)", method: "tools/call", params: `{"name":"t","arguments":{},` + c06ModernMeta + `}`, kind: "modern-tool"},
 		{name: "tools/list(modern,no caps)", method: "tools/list", params: `{"_meta":{"io.modelcontextprotocol/protocolVersion":"2026-07-28"}}`, kind: "modern-invalid"},
 		{name: "tools/list(modern,2099)", method: "tools/list", params: `{"_meta":{"io.modelcontextprotocol/protocolVersion":"2099-01-01","io.modelcontextprotocol/clientCapabilities":{}}}`, kind: "modern-unsupported"},
+		{name: "tools/list(modern,caps an empty array)", method: "tools/list", params: `{"_meta":{"io.modelcontextprotocol/protocolVersion":"2026-07-28","io.modelcontextprotocol/clientCapabilities":[]}}`, kind: "modern-invalid"},
+		{name: "tools/call(modern,caps null)", method: "tools/call", params: `{"name":"t","arguments":{},"_meta":{"io.modelcontextprotocol/protocolVersion":"2026-07-28","io.modelcontextprotocol/clientCapabilities":null}}`, kind: "modern-invalid"},
+		{name: "tools/call(modern,caps a string)", method: "tools/call", params: `{"name":"t","arguments":{},"_meta":{"io.modelcontextprotocol/protocolVersion":"2026-07-28","io.modelcontextprotocol/clientCapabilities":"{}"}}`, kind: "modern-invalid"},
 		{name: "tools/call(modern,bad clientInfo)", method: "tools/call", params: `{"name":"t","arguments":{},"_meta":{"io.modelcontextprotocol/protocolVersion":"2026-07-28","io.modelcontextprotocol/clientCapabilities":{},"io.modelcontextprotocol/clientInfo":5}}`, kind: "modern-invalid"},
 		{name: "unknown/method(modern)", method: "unknown/method", params: `{` + c06ModernMeta + `}`, kind: "modern-unknown-method"},
 		{name: "tools/call(modern, name not a string)", method: "tools/call", params: `{"name":5,"arguments":{},` + c06ModernMeta + `}`, kind: "modern-bad-params"},
